@@ -25,7 +25,7 @@ ASSUMPTIONS = [
 ]
 
 NCON = 8
-NLEAF = 8
+NLEAF = 9
 BS = chr(92)
 
 
@@ -57,6 +57,9 @@ def leaf_query(Qi, leaf, s):
         return q.select(Field('k"`x', table=t), t.v)
     if leaf == 7:  # function + LIKE (neutral)
         return q.select(fn.Upper(t.k), t.v).where(t.b.like("x%"))
+    if leaf == 8:  # interval passed as a function argument
+        from pypika_tortoise.terms import Function
+        return q.select(t.k, Function("DATE_ADD", t.v, Interval(days=3)))
     raise AssertionError(leaf)
 
 
@@ -106,7 +109,7 @@ def leaf_reference(d, leaf, s):
         return q + "b" + q + "='" + enc + "'"
     if leaf == 2:
         return q + "b" + q + ("=ARRAY[1,2]" if d == 2 else "=[1,2]")
-    if leaf == 3:
+    if leaf == 3 or leaf == 8:
         return "INTERVAL '3' DAY" if d in (1, 5) else "INTERVAL '3 DAY'"
     if leaf == 6:
         return q + ('k"`x'.replace(q, q + q)) + q
@@ -127,12 +130,28 @@ def check_nested(name, d, con, depth, leaf, par, s, args):
     n_sql, n_vals = render(native, d, par)
     note("generic_parts", g_sql)
     note("native_parts", n_sql)
+    # stage 1: the program built entirely with the dialect's own classes
+    if con == 5 and not par and not (str(native) == n_sql):
+        note("str", str(native))
+        note("why", "str() of the set operation differs from its rendering under the dialect's own context")
+        return verdict(False, name, stage=1, **args)
+    if not par:
+        ref = leaf_reference(d, leaf, s)
+        if ref is not None and ref not in n_sql:
+            note("why", "leaf is not in the dialect's reference form: " + ref)
+            return verdict(False, name, stage=1, **args)
+    if leaf == 5 and d in (4, 5) and not par and ' GROUP BY "kk"' in n_sql:
+        note("why", "GROUP BY refers to an alias under a dialect that forbids it")
+        return verdict(False, name, stage=1, **args)
+    args = dict(args, stage=2)
+    # stage 2: nested parts built with the generic classes
     ok = g_sql == n_sql and len(g_vals) == len(n_vals)
     why = "" if ok else "nested parts built with the generic classes render differently from the dialect's own"
     if ok and not par:
         ref = leaf_reference(d, leaf, s)
         if ref is not None and ref not in g_sql:
             ok, why = False, "leaf is not in the dialect's reference form: " + ref
+    note("why", why)
     if ok and par and leaf == 4:
         want = ["%s", "%s", "%s"] if d == 1 else (["$1", "$2", "$3"] if d == 2 else ["?", "?", "?"])
         pos = 0
@@ -142,6 +161,11 @@ def check_nested(name, d, con, depth, leaf, par, s, args):
                 ok, why = False, "placeholders are not the dialect's"
                 break
             pos += len(w)
+    if ok and con == 5 and not par:
+        # str() of a set operation starts from the default context; the base query's dialect must still govern it
+        if not (str(generic) == g_sql):
+            ok, why = False, "str() of the set operation differs from its rendering under the dialect's context"
+            note("str", str(generic))
     note("why", why)
     return verdict(ok, name, **args)
 
@@ -153,13 +177,13 @@ def check_nested(name, d, con, depth, leaf, par, s, args):
     timeout={"quick": 200, "thorough": 600},
     witness=[dict(d=1, con=0, depth=1, leaf=0, par=False), dict(d=2, con=5, depth=2, leaf=4, par=True),
              dict(d=5, con=4, depth=1, leaf=5, par=False)],
-    doc="5 non-generic dialect classes x 8 nesting constructs x depth 1-2 x 8 dialect-sensitive leaves x inline / "
+    doc="5 non-generic dialect classes x 8 nesting constructs x depth 1-2 x 9 dialect-sensitive leaves x inline / "
         "parameterised: nested parts built generically render exactly like nested parts built with the dialect's classes, "
         "and the leaf shows the dialect's reference form",
 )
 def c08_nested(d: int, con: int, depth: int, leaf: int, par: bool) -> int:
     """
-    bound: 1 <= depth <= 2 and 0 <= leaf <= 7
+    bound: 1 <= depth <= 2 and 0 <= leaf <= 8
     """
     depth, leaf, par = pin(depth - 1, 2) + 1, pin(leaf, NLEAF), bool(par)
     with _NoTracing():
